@@ -750,6 +750,30 @@ def _env_invariance(chk, group):
         pass
     # environment variables the CURRENT source mentions and the pinned source did not (harness/srcdict.py): each with a few plausible values
     environments = dict(ENVIRONMENTS)
+    # the library imported from a zip archive instead of a directory of loose files (zipapp / pex / serverless bundles)
+    try:
+        import zipfile
+        zpath = os.path.join(BUILD, "webauthn_%s.zip" % _tree_digest(os.path.join(repo, "webauthn"))[:16])
+        if not os.path.exists(zpath):
+            tmpz = zpath + f".{os.getpid()}"
+            with zipfile.ZipFile(tmpz, "w") as z:
+                for dp, dn, fn in os.walk(os.path.join(repo, "webauthn")):
+                    for f in fn:
+                        if not f.endswith((".pyc", ".pyo")):
+                            z.write(os.path.join(dp, f), os.path.relpath(os.path.join(dp, f), repo))
+            os.replace(tmpz, zpath)
+        environments["the library imported from a zip archive"] = {"@pythonpath": zpath, "VERIF_LIB_PATH": zpath}
+    except Exception:
+        pass
+    try:
+        from harness import srcdict as _sd
+        if _sd.new_imports():
+            environments["optional packages the changed source imports are present (stand-ins): " + ", ".join(_sd.new_imports())[:80]] = {"VERIF_MASQUERADE": "phantom-modules"}
+        if _sd.paths():
+            for content in ("1", "0", "true"):
+                environments[f"files the changed source names exist and read '{content}': " + ", ".join(_sd.paths())[:80]] = {"VERIF_MASQUERADE": "files:" + content}
+    except Exception:
+        pass
     try:
         from harness import srcdict, regsim as _rs
         vals = ["0", "1", "true", "16", "1561939200", str(_rs.T0 - 400 * _rs.DAY)] + [str(n) for n in srcdict.new()["int"][:4]]
@@ -774,7 +798,7 @@ def _env_invariance(chk, group):
         env = dict(os.environ)
         env.update({k: (bundle if v == "@forged_root_bundle" else bundle_dir if v == "@forged_root_dir" else v) for k, v in extra.items()})
         env["VERIF_REPO"] = repo
-        env["PYTHONPATH"] = repo
+        env["PYTHONPATH"] = env.pop("@pythonpath", repo)
         env["PYTHONHASHSEED"] = "0"
         args = env.pop("@args", "").split()
         env.pop("@monotone", None)
